@@ -140,7 +140,8 @@ Definition ownb (q : Z) (e : ev) : bool :=
    OraPool: pid recorded at construction, a new cx_Oracle.SessionPool per process (generated: ora_connect) *)
 Record oproc := mkoproc { opid_self : Z; cx : cxpool; opid : Z; oforked : list (cxpool * Z); occon : option conn; oserial : Z }.
 
-Definition ora_session_connect (s : oproc) : oproc * conn :=
+(* a session connects; pool_ok / acquire_ok: do creating the SessionPool / acquiring a connection succeed *)
+Definition ora_session_connect (pool_ok acquire_ok : bool) (s : oproc) : oproc * option conn :=
   let fresh := (opid_self s, oserial s + 1) in
-  let '(c, cx', pid', fk, _) := ora_connect (opid_self s) (cx s) (opid s) (oforked s) fresh in
-  (mkoproc (opid_self s) cx' pid' fk (Some c) (oserial s + 1), c).
+  let '(c, cx', pid', fk, _) := ora_connect pool_ok acquire_ok (opid_self s) (cx s) (opid s) (oforked s) fresh in
+  (mkoproc (opid_self s) cx' pid' fk c (oserial s + 1), c).
